@@ -76,6 +76,8 @@ def model(sym):
         st["prints_" + st["ctx"]].append(str(msg))
 
     fake_click = types.SimpleNamespace(secho=echo, echo=echo, style=lambda m, **k: m)
+    import ascmhl.logger as LG
+    verbose_cmd = sym.flag("command_run_with_v")
     # schedule: if the answer arrives after the join gave up, the checker thread's body runs (atomically) just before the
     # k-th read the main thread makes of the updater object, or not at all before the process ends
     k_sched = sym.int("late_thread_runs_before_read", 1, 9)
@@ -85,6 +87,8 @@ def model(sym):
             return
         st["ran"] = True
         prev, st["ctx"] = st["ctx"], "checker"
+        # the command switches verbose logging on when it starts; a checker thread that finished before that saw it off
+        prev_v, LG.verbose_logging = LG.verbose_logging, bool(verbose_cmd and (hang or L > 0))
         try:
             try:
                 U.Updater.run(spy)
@@ -92,6 +96,7 @@ def model(sym):
                 pass  # an uncaught exception only kills the checker thread
         finally:
             st["ctx"] = prev
+            LG.verbose_logging = prev_v
 
     class Spy(U.Updater):
         def start(self):
@@ -122,8 +127,6 @@ def model(sym):
                     thread_body(self)
             return object.__getattribute__(self, name)
 
-    import ascmhl.logger as LG
-    verbose_cmd = sym.flag("command_run_with_v")
     saved = (U.requests, CLI.updater, CLI.click)
     saved_lg = (LG.click, LG.verbose_logging)
     U.requests, CLI.click = fake_requests, fake_click
